@@ -363,22 +363,32 @@ def getZ (v : List XVal) (i : Int) : XVal := if 0 ≤ i then v.getD i.toNat XVal
 def valueAt (start d : Int) (v : List XVal) (t : Int) : XVal :=
   if (t - start) % d = 0 then getZ v ((t - start) / d) else XVal.nan
 
-/-- what `resize` does to one series of an equidistant store -/
-def resize1 (d start stop ns ne : Int) (v : List XVal) : List XVal :=
+/-- what `resize` does to one series of an equidistant store (repaired code, commit f5e4157): the
+    start is moved by `round((ns - start)/d)` steps, then the array is brought to the number of
+    stamps of the new window, `round((ne - ns)/d) + 1` -/
+def resize1 (d start ns ne : Int) (v : List XVal) : List XVal :=
+  let v1 := shiftStart (roundDiv (ns - start) d) v
+  shiftEnd (roundDiv (ne - ns) d + 1 - (v1.length : Int)) v1
+
+/-- the code before f5e4157 (finding F26): the end adjustment was taken relative to the old end -/
+def resize1Legacy (d start stop ns ne : Int) (v : List XVal) : List XVal :=
   shiftEnd (roundDiv (ne - stop) d) (shiftStart (roundDiv (ns - start) d) v)
 
-/-- `resize(start, stop)` as coded (pi.py 1098-1173); `none` = `ValueError` (nonequidistant
-    series cannot grow).  `times` / `fcIndex` are left untouched by the code. -/
+/-- `resize(start, stop)` as coded (pi.py, after the repairs f5e4157 / c8258f8); `none` =
+    `ValueError` (nonequidistant series cannot grow).  The time stamps follow the values;
+    `fcIndex` is left untouched by the code. -/
 def resize (ns ne : Int) (s : Store) : Option Store :=
   match s.dt with
   | some d =>
     some { s with start := ns, stop := ne,
-                  slots := mapVals (resize1 d s.start s.stop ns ne) s.slots }
+                  times := gridTimes ns d (roundDiv (ne - ns) d + 1).toNat,
+                  slots := mapVals (resize1 d s.start ns ne) s.slots }
   | none =>
     if ns < s.start ∨ s.stop < ne then none else
     let a : Int := (bisectLeft s.times ns : Int) - (bisectLeft s.times s.start : Int)
     let b : Int := (bisectLeft s.times ne : Int) - (bisectLeft s.times s.stop : Int)
     some { s with start := ns, stop := ne,
+                  times := (s.times.take (bisectLeft s.times ne + 1)).drop (bisectLeft s.times ns),
                   slots := mapVals (fun v => shiftEnd b (shiftStart a v)) s.slots }
 
 /-- a sequence of `resize` calls -/
@@ -405,8 +415,14 @@ def minList : List Int → Option Int
 
 /-- values written to the `time` variable and the reference date of its unit string
     (`seconds since <reference>`); `none`: `np.min` of an empty array raises.
-    `ft` = forecast time in seconds, `fd` = forecast date. -/
+    `ft` = forecast time in seconds, `fd` = forecast date (repaired code, commit 2e78bfd). -/
 def ncWriteTimes (times : List Int) (ft fd : Int) : Option (List Int × Int) :=
+  match minList times with
+  | none => none
+  | some m => if m < 0 then some (times.map (· - m), fd - ft + m) else some (times, fd - ft)
+
+/-- the code before 2e78bfd (finding F40): without a negative time the forecast time was ignored -/
+def ncWriteTimesLegacy (times : List Int) (ft fd : Int) : Option (List Int × Int) :=
   match minList times with
   | none => none
   | some m => if m < 0 then some (times.map (· - m), fd - (ft - m)) else some (times, fd)
